@@ -18,6 +18,9 @@ from openmdao.utils.mpi import MPI
 
 _cache_stats = {}
 
+# round-off floor of the relative tolerance used when testing if two vectors are parallel
+_ROUNDOFF = 8. * np.finfo(float).eps
+
 
 def _print_stats():
     """
@@ -316,12 +319,22 @@ class LinearRHSChecker(object):
             rhs_are_parallel = isclose(
                 abs(dot_product), rhs_norm * rhs_cache_norm, rel_tol=self._rtol, abs_tol=self._atol
             )
+            if rhs_are_parallel and rhs_cache_norm > 0.0:
+                # |a.b| == |a||b| to within rtol only pins the angle between the two vectors down
+                # to about sqrt(2 * rtol), so confirm that the part of the RHS that is orthogonal
+                # to the cached RHS vanishes. The scaler itself carries a few ulps of round-off.
+                scaler = dot_product / rhs_cache_norm**2
+                ortho_norm = np.sum((rhs_arr - rhs_cache * scaler)**2)
+                if is_parallel:
+                    ortho_norm = system.comm.allreduce(ortho_norm)
+                rhs_are_parallel = bool(
+                    np.sqrt(ortho_norm) <= self._atol + max(self._rtol, _ROUNDOFF) * rhs_norm
+                )
             if is_parallel:
                 rhs_are_parallel = system.comm.allreduce(rhs_are_parallel, op=MPI.LAND)
             if rhs_are_parallel:
                 # two vectors are parallel, thus we can use the cache.
                 if rhs_cache_norm > 0.0:
-                    scaler = dot_product / rhs_cache_norm**2
                     sol_array = sol_cache * scaler
                     if self._stats is not None:
                         self._stats['parhits'] += 1
